@@ -134,7 +134,7 @@ def local_expr(F, B, l, depth):
     if k in ("ref", "rawptr"):
         return ("addr", place_expr(F, B, rv["place"], depth + 1), place_str(rv["place"]), "raw" if k == "rawptr" else "ref")
     if k == "agg":
-        return ("agg", rv.get("agg"), rv.get("adt"), rv.get("variant"), tuple(expr(F, B, o, depth + 1) for o in rv["ops"]))
+        return ("agg", rv.get("agg"), rv.get("def") if rv.get("agg") == "closure" else rv.get("adt"), rv.get("variant"), tuple(expr(F, B, o, depth + 1) for o in rv["ops"]))
     if k == "discr":
         return ("discr", place_expr(F, B, rv["place"], depth + 1))
     return ("unknown", k)
@@ -212,6 +212,71 @@ def inline_call(F, e, depth=0):
 
         r = ren(r)
     return subst_args(r, list(e[3]))
+
+
+CALL_TRAIT_FNS = ("core::ops::function::FnOnce::call_once", "core::ops::function::FnMut::call_mut", "core::ops::function::Fn::call")
+
+
+def inline_closure_call(F, e):
+    """`call_once(closure{upvars..}, (args..))` with the closure value visible: the closure body's result expression with its
+    captures and arguments substituted; None otherwise."""
+    if e[0] != "call" or e[1] not in CALL_TRAIT_FNS or len(e[3]) != 2:
+        return None
+    clo, tup = strip_casts(e[3][0]), e[3][1]
+    while clo[0] == "addr":
+        clo = clo[1]
+    if not (clo[0] == "agg" and clo[1] == "closure" and clo[2] in F.bodies and tup[0] == "agg" and tup[1] == "tuple"):
+        return None
+    from . import cfg
+
+    cb = F.body(clo[2])
+    r = local_expr(F, cfg.Body(cb), 0, 0)
+    if has_unknown(r):
+        return None
+    ups, elems = clo[4], tup[4]
+
+    def sub(x):
+        if isinstance(x, tuple):
+            if len(x) == 3 and x[0] == "proj" and strip_derefs(x[1]) == ("arg", 1) and x[2]:
+                names = [n for n in x[2] if n != "*"]
+                if names:
+                    try:
+                        k = int(names[0])
+                    except ValueError:
+                        k = None
+                    if k is not None and k < len(ups):
+                        rest = tuple(names[1:])
+                        return ("proj", ups[k], rest) if rest else ups[k]
+            if len(x) == 2 and x[0] == "arg" and isinstance(x[1], int) and x[1] >= 2:
+                return elems[x[1] - 2] if x[1] - 2 < len(elems) else ("unknown", "arg")
+            return tuple(sub(y) for y in x)
+        return x
+
+    return sub(r)
+
+
+def strip_derefs(e):
+    while e[0] == "proj" and all(n == "*" for n in e[2]):
+        e = e[1]
+    while e[0] == "addr":
+        e = e[1]
+    return e
+
+
+def normalize_calls(F, e, private, depth=0):
+    """Expand calls of private local helpers (predicate `private(key)`) and calls of closures whose value is visible, bottom-up."""
+    if depth > 6 or not isinstance(e, tuple):
+        return e
+    e = tuple(normalize_calls(F, x, private, depth) if isinstance(x, tuple) else x for x in e)
+    if e and e[0] == "call":
+        r = None
+        if e[1] in CALL_TRAIT_FNS:
+            r = inline_closure_call(F, e)
+        elif F.body(e[1]) is not None and private(e[1]):
+            r = inline_call(F, e)
+        if r is not None:
+            return normalize_calls(F, r, private, depth + 1)
+    return e
 
 
 def strip_casts(e):
